@@ -33,8 +33,10 @@ long tick_budget_for(const Program &p) {
   long blocks = 0;
   for (auto &f : p.funcs)
     blocks += (long)f.blocks.size();
-  // honest runs need 10..500 ticks; the budget is 3-5 orders of magnitude above
-  return 1000000 + 100000 * blocks * (long)p.funcs.size();
+  // honest runs need 10..500 ticks (max observed: ~100); the budget is 3 orders of
+  // magnitude above, and small enough to be exhausted by a diverging analysis of
+  // an expensive domain long before the 180 s wall-clock watchdog of the workers
+  return 50000 + 5000 * blocks * (long)p.funcs.size();
 }
 
 void configure_scheduler(RandomScheduler &s, const Case &c, const DomainInfo &di,
